@@ -225,6 +225,52 @@ CHECKS = {
 NOT_YET = {}
 
 
+# second layers added in the audit phase (DESIGN.md 12.6): appended to the level text
+AUDIT = {
+    "C01": "Audit layer (OneD.tla 7b, OneDAudit.tla): n = 1, seed-drawn n / alpha / step / rho from pools stated in the model, call forms "
+           "(omitted / positional / NumPy integer / 0-d arguments, rebuilt after the first result was overwritten), every exactness obligation "
+           "repeated through OneDGrid.integrate, catalogue audit (every OneDGrid subclass of grid.onedgrid is in Rules) and default audit.",
+    "C03": "Audit layer (RTransformAudit.tla): inverse-of-inverse involution, the wrapper's own end points, parameters with rmin < 0 and "
+           "scales 1e-3 / 1e3, non-integer exponents 1/2..21/2, points 2^-20 from the ends, argument forms (0-d, int64, longdouble, descending "
+           "with duplicates, empty, one array handed to every method), and the state machine of the inferred scale b (BStart/BCall: set by "
+           "the first call, frozen afterwards) replayed on the three b-inferring classes.",
+    "C04": "Audit layer (Transform1DExt.tla): hand-made rules (negative / zero weights, unsorted, duplicate and single nodes, integer and "
+           "extended-precision arrays), sub-intervals sharing one end with the map, seven spec integrands incl. sign-changing ones pulled back "
+           "symbolically, chains outer o LinearFinite judged against the composed tree, and the two-call machine for the inferred scale.",
+    "C05": "Audit layer (AtomGridX.tla, 2006 cases in six families): unsorted / descending / duplicate radii and r = 0 inside, grids scaled by "
+           "2^k, NumPy-integer degree / size sequences, sizes next to degrees, boundary degrees and sizes of all methods, centre forms, rotation "
+           "seeds up to 2^32-N-1 as <<sign, hi, lo>>, method spellings; AtomGrid.integrate / integrate_angular_coordinates judged against "
+           "4 pi x SphereMonomial x radial sum with TLC rationals; the product law on every preset grid.",
+    "C07": "Audit layer (MolGrid.tla Part 1x / 2 / 3): eight-atom molecule, HBr / FeO / LiF, rigidly moved and atom-reversed copies, dicts with "
+           "superfluous keys, from_pruned with both / neither sector kinds, the plain constructor with per-atom grids and seeds, array and "
+           "callable weights through every constructor, input representations (int16 / uint8 atomic numbers, Fortran / strided coordinates), "
+           "arguments unmodified, same call twice, a second store subject, seed-drawn end-to-end exponent patterns and single-centre sums.",
+    "C10": "Audit layer: centre and radius in the forms a caller may hold them (list / tuple / integer array / 0-d, single precision, "
+           "tiny radii for R = 0, 1e300 for the radius beyond everything), in-place edit + re-assignment of the points array (SPI), an "
+           "alternative point set far outside the old bounding box (P4 in the model).",
+    "C12": "Audit layer: NumPy-integer requests, size requests with an ignored degree, method spellings, cache flag, routes preset "
+           "(from_preset on sector-midpoint radial grids, all methods) and mol (MolGrid.from_size).",
+    "C13": "Audit layer (MC_Cubic*.tla extended): NumPy-integer indices, large non-cubic shapes with sampled indices (stride > 32767), grids "
+           "divided by 2^k, integer-array origins / axes, unsorted nodes, tensor products of the library's own 1D rules, weights through "
+           "from_cube / from_molecule incl. defaults, closest_point outside the box (clamping), cube data forms (3D, Fortran, strided, float32, "
+           "integer, no atoms, wide coordinates), interpolation call forms, negative steps / descending nodes, non-diagonal axes.",
+    "C14": "Audit layer (MomentsX.tla): per-case orders up to 12, 1-6 centres with duplicates and dtype / layout forms, star / one-point / "
+           "empty / duplicate-point geometries, zero / negative / fractional weights, scaling by 2^shift under CartScaleLaw, function value "
+           "dtypes (float16..longdouble, ints, bool), listing and call forms, a session machine (call, in-place edit / assignment / scribble, "
+           "call again), dipoles for 1-6 atoms with Z up to 82.",
+    "C17": "Audit layer (CoulombForms*.tla): alpha over 1e-10..1e10 and the shipped exponents, alpha / r / flag forms (every NumPy scalar type, "
+           "lists, 0-d, 2-d, strided, read-only, empty), r up to 1e300 and infinity, far-field clause r V / Q = 1, documented-constant ratio "
+           "clause, continuity across the switch, same objects twice, 1000 centre / coefficient configurations (p set omitted / None / empty, "
+           "aliased argument arrays, N = 0..1500), cold lookups of the parameter table.",
+    "C19": "Audit layer (CacheReq.tla, ScaleMulti*.tla, CoulombSys/Gen/Trace.tla): non-tabulated degree and size requests, NumPy integers, "
+           "spellings, shells with r_sq on/off and rotation, Use (integrate / get_localgrid) on returned grids, everything built through "
+           "degrees / sizes / from_pruned / from_preset / MolGrid.from_size; two transform objects with wrappers, unsorted / typed arrays, "
+           "caller scribbling and the refused all-zero grid; all 3216 behaviours of length 4 of the Coulomb table machine.",
+    "C20": "Audit layer: the floating type of the array arguments (single / extended precision) is a fifth program component "
+           "(conversions that copy for one input type alias for another); operations added for every seeded change that was missed.",
+}
+
+
 def main():
     props = [json.loads(l) for l in open(os.path.join(ROOT, "properties.jsonl"))]
     na_path = os.path.join(ROOT, "tools", "not_applicable.json")
@@ -235,6 +281,8 @@ def main():
         if pid not in CHECKS:
             continue
         level, tech, text, note, ref = CHECKS[pid]
+        if pid in AUDIT:
+            text = text + "  " + AUDIT[pid]
         checks.append({
             "property_id": pid,
             "quick_cmd": f"./check {pid} --tier quick",
